@@ -62,7 +62,7 @@ ASSUMPTIONS = [
 BOUND = {
     "quick": "shapes {1..4}^3 + (5,1,1),(7,1,1),(1,1,6),(2,3,7),(6,6,6) "
     "[69 shapes, N mod 6 and N mod 3 all covered] x 3 value patterns (+1 "
-    "seed-chosen extra pattern) x 3 origins x 3 spacings (one with skewed axes) x 9 atom lists x 2 "
+    "seed-chosen extra pattern) x 3 origins x 3 spacings (one with skewed axes) x 11 atom lists (digit chain ids, touching fixed-column fields) x 2 "
     "DX styles through the API; 7 atom lists x 2 patterns per shape through "
     "main.dx_to_cube",
     "thorough": "shapes {1..6}^3 + (7,1,1),(2,3,7),(1,7,1),(7,7,7) [220 "
